@@ -288,12 +288,57 @@ def r3(chk, repo, L):
 
 
 def r4(chk, repo, L):
+    """every record of every chunk is rebased: <record>.<position field> += offset, once per field, for each record.
+    The bumps sit either in the per-record helper (_adjust_offset) mapped over the records, or in a loop / comprehension
+    of adjust_offsets itself."""
     io = repo.module(IMG_IO)
-    ao = io.func("_adjust_offset")
-    where = f"{io.relpath}:_adjust_offset"
-    rec, off = ao.positional_params[:2]
+    aos = io.func("adjust_offsets")
+    records_p, offset_p = aos.positional_params[:2]
+    helper = io.funcs.get("_adjust_offset")
+    mapped_ok, how = False, ""
+    site_fi, rec, off, scope_nodes = None, None, None, None
+    r = single_return(aos)
+    if helper is not None and isinstance(r, (ast.ListComp, ast.GeneratorExp)) or (helper is not None and isinstance(r, ast.Call) and norm(r.func) in ("list", "tuple")):
+        comp = r if isinstance(r, (ast.ListComp, ast.GeneratorExp)) else (r.args[0] if r.args else None)
+        if isinstance(comp, ast.Call) and norm(comp.func) == "map" and len(comp.args) == 2:
+            # list(map(curry(_adjust_offset, offset=offset), records))
+            cs = resolve_callees(repo, aos, comp.args[0])
+            mapped_ok = any(c.func is helper for c in cs) and norm(comp.args[1]) == records_p and any(norm(v) == offset_p for c in cs for v in list(c.pre_kwargs.values()) + c.pre_args)
+            how = short(r, 70)
+        elif isinstance(comp, (ast.ListComp, ast.GeneratorExp)) and len(comp.generators) == 1:
+            g = comp.generators[0]
+            from ..interproc import bind_args
+            cs = resolve_callees(repo, aos, comp.elt.func) if isinstance(comp.elt, ast.Call) else []
+            if any(c.func is helper for c in cs):
+                b, _ = bind_args(cs[0], comp.elt)
+                hp = helper.positional_params
+                mapped_ok = not g.ifs and norm(g.iter) == records_p and norm(b.get(hp[0])) == norm(g.target) and norm(b.get(hp[1])) == offset_p
+                how = short(r, 70)
+        site_fi, (rec, off) = helper, helper.positional_params[:2]
+        scope_nodes = list(helper.own_nodes())
+        ret = [n for n in helper.own_nodes() if isinstance(n, ast.Return)]
+        chk.require(len(ret) == 1 and norm(ret[0].value) == rec, "C01-R4", f"{io.relpath}:_adjust_offset", "returns the adjusted record", "does not return the record", key="adjust:return")
+    else:
+        # bumps written in adjust_offsets itself: one loop over the records
+        loops = [n for n in aos.own_nodes() if isinstance(n, ast.For) and norm(n.iter) == records_p and isinstance(n.target, ast.Name)]
+        if len(loops) != 1:
+            raise AnalysisError(f"{io.relpath}:adjust_offsets: neither a map of _adjust_offset over the records nor a single loop over them; not decided")
+        loop = loops[0]
+        site_fi, rec, off = aos, loop.target.id, offset_p
+        scope_nodes = [n for st in loop.body for n in ast.walk(st)]
+        exits = [n for n in scope_nodes if isinstance(n, (ast.Break, ast.Continue, ast.Return))]
+        # the loop must hand every (adjusted) record on: appended unconditionally, or the input list itself is returned
+        appended = [st for st in loop.body if isinstance(st, ast.Expr) and isinstance(st.value, ast.Call) and isinstance(st.value.func, ast.Attribute) and st.value.func.attr == "append"
+                    and st.value.args and norm(st.value.args[0]) == rec]
+        rets = [n for n in aos.own_nodes() if isinstance(n, ast.Return)]
+        returns_input = len(rets) == 1 and norm(rets[0].value) == records_p
+        returns_out = len(rets) == 1 and appended and isinstance(appended[0].value.func.value, ast.Name) and norm(rets[0].value) == appended[0].value.func.value.id
+        mapped_ok = not exits and (returns_input or bool(returns_out))
+        how = f"for {rec} in {records_p}: ... ({'appended to the result' if returns_out else 'adjusted in place'})"
+        chk.ok("C01-R4", f"{io.relpath}:adjust_offsets", "returns the adjusted records")
+    where = f"{site_fi.module.relpath}:{site_fi.qualname}"
     bumped = {}
-    for n in ao.own_nodes():
+    for n in scope_nodes:
         path = None
         if isinstance(n, ast.AugAssign) and isinstance(n.op, ast.Add) and isinstance(n.value, ast.Name) and n.value.id == off:
             path = norm(n.target)
@@ -316,18 +361,11 @@ def r4(chk, repo, L):
     for p in sorted(pos_fields):
         chk.require(bumped.get(p) == 1, "C01-R4", where, f"{p} += offset (once)",
                     f"{p} is a stream position recorded relative to the chunk but it is rebased {bumped.get(p, 0)} time(s): rows are sliced from the wrong file offset",
-                    key=f"adjust:{p}", sample={"field": p})
+                    key=f"adjust:{p.replace(rec + '.', 'record.', 1)}", sample={"field": p})
     extra = [p for p in bumped if p not in pos_fields]
-    chk.require(not extra, "C01-R4", where, "no other field is modified", f"_adjust_offset also modifies {extra}", key="adjust:extra")
-    ret = [n for n in ao.own_nodes() if isinstance(n, ast.Return)]
-    chk.require(len(ret) == 1 and norm(ret[0].value) == rec, "C01-R4", where, "returns the adjusted record", "does not return the record", key="adjust:return")
-    # every record of every chunk goes through it
-    aos = io.func("adjust_offsets")
-    r = single_return(aos)
-    ok = isinstance(r, ast.ListComp) and len(r.generators) == 1 and not r.generators[0].ifs and norm(r.generators[0].iter) == aos.positional_params[0] \
-        and isinstance(r.elt, ast.Call) and norm(r.elt.func) == "_adjust_offset" and [norm(a) for a in r.elt.args] == [norm(r.generators[0].target), aos.positional_params[1]]
-    chk.require(ok, "C01-R4", f"{io.relpath}:adjust_offsets", "adjust_offsets maps _adjust_offset(record, offset) over every record",
-                f"adjust_offsets is {short(r, 80) if r is not None else '?'}", key="adjust_offsets:map")
+    chk.require(not extra, "C01-R4", where, "no other field is modified", f"the rebasing also modifies {extra}", key="adjust:extra")
+    chk.require(mapped_ok, "C01-R4", f"{io.relpath}:adjust_offsets", f"every record is rebased by the chunk offset ({how})",
+                f"adjust_offsets does not rebase every record by the offset it is given: {how or short(r, 80) if r is not None else '?'}", key="adjust_offsets:map")
 
 
 def r5(chk, repo, L):
@@ -344,8 +382,6 @@ def r5(chk, repo, L):
                 sample={"read": k, "struct": dsize})
     rm = io.func("read_metadata")
     where = f"{io.relpath}:read_metadata"
-    flow = Flow(rm)
-    # chunk_offsets expression
     target = None
     for c in calls_in(rm):
         cs = resolve_callees(repo, rm, c.func)
@@ -353,106 +389,44 @@ def r5(chk, repo, L):
             target = c
     if target is None:
         raise AnalysisError("anchor vanished: adjust_offsets call in read_metadata")
-    comp = None
-    for p in [target] + list(__import__("vlib.core", fromlist=["parents"]).parents(target)):
-        if isinstance(p, (ast.GeneratorExp, ast.ListComp)):
-            comp = p
-            break
-    if comp is None or len(comp.generators) != 1:
-        return r5_loop_form(chk, repo, rm, target, dsize)
-    gen = comp.generators[0]
-    z = gen.iter
-    ok_zip = isinstance(z, ast.Call) and isinstance(z.func, ast.Name) and z.func.id == "zip" and len(z.args) == 2 and isinstance(gen.target, ast.Tuple) and len(gen.target.elts) == 2
-    chk.require(ok_zip, "C01-R5", where, "chunks and offsets are paired by zip(chunks, offsets)", f"chunks and offsets are paired by {short(z, 60)}", key="read_metadata:zip")
-    if not ok_zip:
+    from ..readloop import ReadLoop
+    from ..symexpr import p_add, const as tconst, poly_of
+    rl = ReadLoop(repo, rm, target)
+    rec_e, off_e = rl.args()
+    if rec_e is None or off_e is None:
+        raise AnalysisError(f"{where}: {short(target, 60)} does not pass records and offset; not decided")
+    t_rec = rl.term(rec_e)
+    reads = rl.read_of(t_rec)
+    if len(reads) != 1:
+        raise AnalysisError(f"{where}: the records handed to adjust_offsets are {show(t_rec)[:120]}: not parse_chunk(<file>.read(<size>), <record size>); not decided")
+    size, elt, _ = reads[0]
+    elt_ok = elt is not None and elt[0] == "sub" and elt[2] == ("const", "str", "sar_data_record_length")
+    chk.require(elt_ok, "C01-R5", where, "each chunk is parsed with the header's record length as element size",
+                f"chunks are parsed with element size {show(elt) if elt is not None else None}, not the header's record length", key="read_metadata:parse_chunk")
+    whole = all(elt in mono for mono, c in poly_of(size).items()) if elt is not None else False
+    if not whole:
+        raise AnalysisError(f"{where}: the request size {show(size)} is not <records> * <record length>; not decided")
+    chk.ok("C01-R5", where, f"each request asks for a whole number of records: {show(size)} bytes")
+    t_off = rl.term(off_e)
+    t_off2, carried = rl.substitute_carried(t_off)
+    expected = p_add(rl.total_before(size), tconst(dsize))
+    if t_off2 == expected:
+        chk.ok("C01-R5", where, f"the rebasing offset of every chunk is the descriptor size plus the bytes requested before it: {show(t_off)} == {show(expected)}",
+               sample={"offset": show(t_off), "bytes before": show(expected)})
         return
-    recs_name, off_name = [norm(e) for e in gen.target.elts]
-    bound_off = None
-    from ..interproc import bind_args
-    for cal in resolve_callees(repo, rm, target.func):
-        b, _ = bind_args(cal, target)
-        bound_off = b.get("offset")
-        bound_rec = b.get("records")
-    chk.require(bound_off is not None and norm(bound_off) == off_name and norm(bound_rec) == recs_name, "C01-R5", where,
-                "each chunk's records are rebased by the offset zipped with that chunk", "records/offset of the zip are crossed or not passed", key="read_metadata:pairing")
-    offs = z.args[1]
-    if isinstance(offs, ast.Name):
-        offs = flow.reaching_def(offs.id, z.args[1])
-    detail = short(offs, 80) if offs is not None else "?"
-    if not (isinstance(offs, (ast.ListComp, ast.GeneratorExp)) and len(offs.generators) == 1 and not offs.generators[0].ifs):
-        raise AnalysisError(f"{where}: chunk offsets are {detail}: not a recognised form (comprehension over a running sum)")
-    g = offs.generators[0]
-    it = g.iter
-    try:
-        c = Canon({})
-        env = {}
-        c.bind_target(g.target, env)
-        c2 = c.child(env)
-        term = c2(flow.expand(offs.elt, stop={x.id for x in ast.walk(g.target) if isinstance(x, ast.Name)}))
-        accv = c2.target_shape(g.target, env)
-    except Undecidable as e:
-        raise AnalysisError(f"{where}: chunk offset expression outside the fragment: {e}")
-    if term[0] != "poly":
-        raise AnalysisError(f"{where}: chunk offset element {show(term)} is not an arithmetic expression")
-    d = dict(term[1])
-    const_term = d.pop((), 0)
-    monos = list(d.items())
-    rec_atom_ok = len(monos) == 1 and monos[0][1] == 1 and len(monos[0][0]) == 2 and accv in monos[0][0] \
-        and any(a[0] == "sub" and a[2] == ("const", "str", "sar_data_record_length") for a in monos[0][0])
-    chk.require(rec_atom_ok and const_term == dsize, "C01-R5", where,
-                f"chunk offset = <records before the chunk> * record length + {dsize} ({show(term)})",
-                f"chunk offset element is {show(term)}: expected <records before the chunk> * header['sar_data_record_length'] + {dsize} "
-                f"(the size of the file descriptor): byte ranges are not absolute file offsets", key="read_metadata:chunk-offsets",
-                sample={"expr": show(term)})
-    # what the reads iterate over
-    reads_iter_node = None
-    for cc in calls_in(rm):
-        if isinstance(cc.func, ast.Attribute) and cc.func.attr == "read":
-            for p in __import__("vlib.core", fromlist=["parents"]).parents(cc):
-                if isinstance(p, (ast.GeneratorExp, ast.ListComp)):
-                    reads_iter_node = p.generators[0].iter
-                    break
-    if reads_iter_node is None:
-        raise AnalysisError(f"{where}: the chunk reads are not in a comprehension over the chunk sizes")
-    is_acc = isinstance(it, ast.Call) and norm(it.func).endswith("accumulate")
-    is_range = isinstance(it, ast.Call) and norm(it.func) == "range" and len(it.args) == 3
-    if is_acc:
-        init0 = any(k.arg == "initial" and isinstance(k.value, ast.Constant) and k.value.value == 0 for k in it.keywords)
-        same_src = len(it.args) == 1 and norm(it.args[0]) == norm(reads_iter_node)
-        chk.require(init0 and same_src, "C01-R5", where, f"offsets are the running sum (initial=0) of {norm(reads_iter_node)}, the very sizes that are read",
-                    f"offsets accumulate {short(it, 60)} but the reads iterate {norm(reads_iter_node)}: offsets do not advance by the bytes read", key="read_metadata:offsets-vs-reads")
-    elif is_range:
-        # start positions of a strided range: the sizes read must come from the same stride
-        sizes = flow.reaching_def(reads_iter_node.id, reads_iter_node) if isinstance(reads_iter_node, ast.Name) else reads_iter_node
-        ok_stride = False
-        why = f"reads iterate {short(sizes, 60) if sizes is not None else norm(reads_iter_node)}"
-        if isinstance(sizes, (ast.ListComp, ast.GeneratorExp)) and len(sizes.generators) == 1:
-            it2 = sizes.generators[0].iter
-            if isinstance(it2, ast.Call) and norm(it2.func) == "range" and len(it2.args) == 3:
-                try:
-                    a1 = [Canon({})(flow.expand(x)) for x in it.args]
-                    a2 = [Canon({})(flow.expand(x)) for x in it2.args]
-                    ok_stride = a1 == a2
-                    why = f"offsets step by {show(a1[2])}, reads by {show(a2[2])}"
-                except Undecidable:
-                    pass
-            else:
-                raise AnalysisError(f"{where}: offsets come from {short(it, 50)} but the reads' sizes from {short(it2, 50)}: relation not decidable")
-        else:
-            raise AnalysisError(f"{where}: offsets come from {short(it, 50)}; the sizes read are not a comprehension over the same range")
-        chk.require(ok_stride, "C01-R5", where, f"offsets and read sizes walk the same strided range ({why})",
-                    f"offsets and read sizes use different strides ({why}): after the first request the byte ranges point at other lines", key="read_metadata:offsets-vs-reads")
-    else:
-        raise AnalysisError(f"{where}: chunk offsets iterate {short(it, 60)}: not a recognised running sum")
-    # raw_metadata is the first zip argument: parse_chunk(f.read(...), record_size)
-    first = z.args[0]
-    if isinstance(first, ast.Name):
-        first = flow.reaching_def(first.id, z.args[0])
-    ok_first = isinstance(first, (ast.GeneratorExp, ast.ListComp)) and isinstance(first.elt, ast.Call) and norm(first.elt.func) == "parse_chunk"
-    if ok_first:
-        a1 = flow.expand(first.elt.args[1]) if len(first.elt.args) > 1 else None
-        ok_first = a1 is not None and "sar_data_record_length" in norm(a1)
-    chk.require(ok_first, "C01-R5", where, "each chunk is parsed with the header's record length as element size", "chunks are not parsed with the header's record length", key="read_metadata:parse_chunk")
+
+    def atoms(t):
+        out = set()
+        for mono, c in poly_of(t).items():
+            out |= set(mono)
+        return out
+    known = atoms(expected) | {("index",)}
+    extra = [a for a in atoms(t_off2) if a not in known and not rl.recognised(a)]
+    if extra:
+        raise AnalysisError(f"{where}: the rebasing offset is {show(t_off2)[:160]}, the bytes requested before the chunk are {show(expected)[:160]}; the offset uses "
+                            f"{[show(a)[:40] for a in extra[:3]]}, whose relation to the requests is not decided")
+    chk.fail("C01-R5", where, f"the rebasing offset of a chunk is {show(t_off2)[:200]} but the chunk's bytes start at {show(expected)[:200]} (descriptor size {dsize} + bytes requested before it): "
+                              f"byte ranges are not absolute file offsets, rows are sliced from other lines", key="read_metadata:chunk-offsets")
 
 
 def _subscript_chain(e):
@@ -498,9 +472,36 @@ def r6(chk, repo, L):
     # the count drives the chunk sizes, the length the read sizes
     nrec = [name for name, ent in rm.local_bindings().items() for k, v in ent if k == "assign" and isinstance(v, ast.Subscript) and const_str(v.slice) == "number_of_sar_data_records"]
     cs_def = flow.single_def("chunksizes")
-    if cs_def is None:
-        raise AnalysisError(f"{io.relpath}:read_metadata: no `chunksizes` list any more; dependence of the request sizes on the record count not decided")
-    ok = bool(nrec) and cs_def is not None and nrec[0] in {x.id for x in ast.walk(flow.expand(cs_def)) if isinstance(x, ast.Name)} | {x.id for x in ast.walk(cs_def) if isinstance(x, ast.Name)}
+    if cs_def is not None:
+        ok = bool(nrec) and nrec[0] in {x.id for x in ast.walk(flow.expand(cs_def)) if isinstance(x, ast.Name)} | {x.id for x in ast.walk(cs_def) if isinstance(x, ast.Name)}
+    else:
+        # no list of chunk sizes: the record count must bound the requests through the loop / comprehension that issues them
+        from ..dataflow import enclosing_iterations
+        exprs = []
+        for c in calls_in(rm):
+            if isinstance(c.func, ast.Attribute) and c.func.attr == "read" and c.args:
+                exprs.append(c.args[0])
+                exprs += [it for it, tgt in enclosing_iterations(c, rm.node) if it is not None]
+                exprs += [p_.test for p_ in __import__("vlib.core", fromlist=["parents"]).parents(c) if isinstance(p_, ast.While)]
+        if not exprs:
+            raise AnalysisError(f"{io.relpath}:read_metadata: no sized read in a loop or comprehension; dependence of the request sizes on the record count not decided")
+        # every local the requests (transitively) depend on
+        seen, todo = set(), [x.id for e in exprs for x in ast.walk(e) if isinstance(x, ast.Name)]
+        lb = rm.local_bindings()
+        while todo:
+            nm = todo.pop()
+            if nm in seen:
+                continue
+            seen.add(nm)
+            for kind, val in lb.get(nm, []):
+                v = val if isinstance(val, ast.AST) else (val[1] if kind == "unpack" else None)
+                if kind == "aug":
+                    v = val.value
+                if v is not None:
+                    todo += [x.id for x in ast.walk(v) if isinstance(x, ast.Name)]
+        ok = bool(nrec) and nrec[0] in seen
+        if not ok:
+            raise AnalysisError(f"{io.relpath}:read_metadata: the requests depend on {sorted(seen)[:8]}; dependence on the header's record count not decided")
     chk.require(ok, "C01-R6", f"{io.relpath}:read_metadata", "chunk sizes are derived from the header's record count", "chunk sizes do not depend on the header's record count", key="read_metadata:chunksizes-from-count")
     # byte ranges
     tm = md.func("transform_metadata")
@@ -628,6 +629,8 @@ def r8(chk, repo):
     io = repo.module(IMG_IO)
     for name, spec in IO_SPECS.items():
         fi = io.func(name)
+        if name == "adjust_offsets" and "_adjust_offset" not in io.funcs:
+            continue  # written as a loop: decided by R4
         same, got, want = normal_form_equal(fi, spec)
         chk.require(same, "C01-R8", f"{io.relpath}:{name}", f"{name} == specification ({want[:90]})",
                     f"{name} computes {got[:160]} but the specification is {want[:160]}", key=f"spec:{name}")
@@ -664,6 +667,8 @@ def chunk_sizes_spec(chk, repo):
     rm = io.func("read_metadata")
     where = f"{io.relpath}:read_metadata"
     flow = Flow(rm)
+    if flow.single_def("chunksizes") is None:
+        return request_recurrence(chk, repo, rm)
     env = {"records_per_chunk": ("param", 0), "n_records": ("param", 1), "n_chunks": ("param", 2)}
     for var, spec, stop in (("chunksizes", CHUNKSIZES_SPEC, ("n_chunks", "n_records", "record_size", "records_per_chunk")), ("n_chunks", NCHUNKS_SPEC, ("n_records", "records_per_chunk"))):
         d = flow.single_def(var)
@@ -682,40 +687,44 @@ def chunk_sizes_spec(chk, repo):
                     key=f"spec:read_metadata:{var}", sample={"variable": var, "normal form": show(got)[:160]})
 
 
-def r5_loop_form(chk, repo, rm, adjust_call, dsize):
-    """read_metadata written as an explicit loop: the running offset must start at the descriptor size and
-    advance by exactly the number of bytes read in each iteration"""
-    from ..core import parents
-    from ..interproc import bind_args
+def request_recurrence(chk, repo, rm):
+    """read_metadata without a list of chunk sizes: the requests must still add up to the header's record count.
+    Accepted: the recurrence  while <received> < n: k = min(records_per_chunk, n - <received>).  A loop-invariant request
+    size k repeated ceil(n / k) times asks for more records than the file holds unless k divides n: rejected."""
+    from ..readloop import ReadLoop
+    from ..symexpr import p_add, p_mul, const as tconst
     where = f"{rm.module.relpath}:read_metadata"
-    flow = Flow(rm)
-    loop = None
-    for p in parents(adjust_call):
-        if isinstance(p, (ast.While, ast.For)):
-            loop = p
-            break
-    if loop is None:
-        raise AnalysisError(f"{where}: adjust_offsets is neither in a comprehension over (records, offset) nor in a loop")
-    b = {}
-    for cal in resolve_callees(repo, rm, adjust_call.func):
-        b, _ = bind_args(cal, adjust_call)
-    off = b.get("offset")
-    if not isinstance(off, ast.Name):
-        raise AnalysisError(f"{where}: the rebasing offset is {short(off, 40) if off is not None else None}, not a running variable")
-    reads = [n for st in loop.body for n in ast.walk(st) if isinstance(n, ast.Call) and isinstance(n.func, ast.Attribute) and n.func.attr == "read" and n.args]
-    incs = [n for st in loop.body for n in ast.walk(st) if isinstance(n, ast.AugAssign) and isinstance(n.target, ast.Name) and n.target.id == off.id and isinstance(n.op, ast.Add)]
-    if len(reads) != 1 or len(incs) != 1:
-        raise AnalysisError(f"{where}: loop with {len(reads)} reads and {len(incs)} increments of {off.id}: not decided")
-    stop = {x.id for x in ast.walk(loop) if isinstance(x, ast.Name) and isinstance(x.ctx, ast.Store)}
-    try:
-        read_size = Canon({})(flow.expand(reads[0].args[0], stop=stop))
-        inc = Canon({})(flow.expand(incs[0].value, stop=stop))
-    except Undecidable as e:
-        raise AnalysisError(f"{where}: loop arithmetic outside the fragment: {e}")
-    chk.require(read_size == inc, "C01-R5", where, f"each iteration reads {show(read_size)} bytes and advances the rebasing offset by the same amount",
-                f"each iteration reads {show(read_size)} bytes but advances the rebasing offset by {show(inc)}: once the two differ, the byte ranges of later lines point at other lines",
-                key="read_metadata:offsets-vs-reads", sample={"read": show(read_size), "increment": show(inc)})
-    init = [n for n in rm.own_nodes() if isinstance(n, ast.Assign) and isinstance(n.targets[0], ast.Name) and n.targets[0].id == off.id and n.lineno < loop.lineno]
-    ok0 = len(init) == 1 and isinstance(init[0].value, ast.Constant) and init[0].value.value == dsize
-    chk.require(ok0, "C01-R5", where, f"the rebasing offset starts at the descriptor size {dsize}",
-                f"the rebasing offset starts at {short(init[0].value, 30) if init else None}, the file descriptor is {dsize} bytes", key="read_metadata:chunk-offsets")
+    target = None
+    for c in calls_in(rm):
+        if any(x.key.endswith(":adjust_offsets") for x in resolve_callees(repo, rm, c.func)):
+            target = c
+    if target is None:
+        raise AnalysisError("anchor vanished: adjust_offsets call in read_metadata")
+    rl = ReadLoop(repo, rm, target)
+    rec_e, _ = rl.args()
+    k = rl._length(rl.term(rec_e))
+    N = None
+    for n in rm.own_nodes():
+        if isinstance(n, ast.Subscript) and const_str(n.slice) == "number_of_sar_data_records":
+            N = rl.term(n)
+    if N is None:
+        raise AnalysisError(f"{where}: the record count of the header is not used")
+    RPC = ("name", "records_per_chunk")
+    if isinstance(rl.loop, ast.While):
+        test = rl.term(rl.loop.test)
+        car = rl.carried()
+        counters = [a for a, (v0, delta, _) in car.items() if v0 == tconst(0) and delta == k]
+        for C in counters:
+            want_k = {("call", ("name", "min"), (RPC, p_add(N, C, -1)), ()), ("call", ("name", "min"), (p_add(N, C, -1), RPC), ())}
+            want_test = ("cmp", "Lt", p_add(C, N, -1), tconst(0))
+            if k in want_k and test == want_test:
+                chk.ok("C01-R8", where, f"requests follow the recurrence k = min(records_per_chunk, n - received) while received < n (received = {show(C)}): they add up to the record count",
+                       sample={"request (records)": show(k), "loop test": show(test)})
+                chk.ok("C01-R8", where, "number of requests = ceil(n / records_per_chunk) (same recurrence)")
+                return
+        raise AnalysisError(f"{where}: while-loop requesting {show(k)[:120]} records per iteration under the test {show(test)[:80]}: not the recognised recurrence; whether the requests add up to the record count is not decided")
+    if not any(rl.is_variant(a) for mono, c in __import__("vlib.symexpr", fromlist=["poly_of"]).poly_of(k).items() for a in mono):
+        chk.fail("C01-R8", where, f"every request asks for the same {show(k)[:100]} records: together they ask for more than the header's record count unless it is a multiple of that, "
+                                  f"so the last request depends on where the file happens to end (trailing bytes or padding are parsed as line records)", key="spec:read_metadata:chunksizes")
+        return
+    raise AnalysisError(f"{where}: requests of {show(k)[:120]} records; whether they add up to the record count is not decided")
